@@ -199,12 +199,11 @@ Definition path := list nat.   (* position of a statement, innermost index first
 Fixpoint path_str (p : path) : string :=
   match p with
   | [] => ""
-  | [i] => nat2s i
-  | i :: r => path_str r ++ "_" ++ nat2s i
+  | i :: r => ncode i ++ "_" ++ path_str r
   end%string.
 
 Inductive loopkind := LWhile | LFor.
-Record loopctx := mkLoop { lp_kind : loopkind; lp_path : path; lp_intr_used : bool }.
+Record loopctx := mkLoop { lp_kind : loopkind; lp_path : path; lp_intr_used : bool; lp_has_break : bool }.
 
 Definition break_name (p : path) : ident := ol "break" (path_str p).
 Definition intr_name (p : path) : ident := ol "interrupt" (path_str p).
@@ -421,7 +420,7 @@ Section Stmts.
         ret [if_result t b' o']
     | SWhile test b o =>
         let has_break := brk_block b in
-        let me := mkLoop LWhile p (uses_flag mi_loop b) in
+        let me := mkLoop LWhile p (uses_flag mi_loop b) has_break in
         let! b' := block (mkCtx n (me :: c_loops c) (c_ret_used c)) p 0 0 b in
         let! o' := block c p 1 0 o in
         let! t := tr n test in
@@ -434,7 +433,7 @@ Section Stmts.
              ++ (match o' with [] => [] | _ => [orelse] end))
     | SFor target iter b o =>
         let has_break := brk_block b in
-        let me := mkLoop LFor p (uses_flag mi_loop b) in
+        let me := mkLoop LFor p (uses_flag mi_loop b) has_break in
         let! b' := block (mkCtx n (me :: c_loops c) (c_ret_used c)) p 0 0 b in
         let! o' := block c p 1 0 o in
         let ftmp := ol "for" (path_str p) in
@@ -512,7 +511,7 @@ Section Stmts.
                   ++ (match n_inner_nonlocal fn with
                       | [] => []
                       | _ => let ps := sort_dedup (n_nonlocal_params fn) in
-                             [NamedExpr (ol "nonlocal" (nat2s (n_id fn)))
+                             [NamedExpr (ol "nonlocal" (ncode (n_id fn)))
                                         (EDict (map (fun x => Some (cstr x)) ps) (map Name ps))]
                       end)
                   ++ (if cfg_chain cfg then [wrap cfg b'] else b')
@@ -546,7 +545,7 @@ Section Stmts.
                 let! create := get_assign n name
                                  (Call meta [cstr name; ETuple bases'; EDict [] []] (filter (fun kw => negb (is_meta kw)) kws')) in
                 let! load1 := get_load_name n [] name in
-                let cd := ol "classnsp" (nat2s (n_id cn)) in
+                let cd := ol "classnsp" (ncode (n_id cn)) in
                 let loader := ol "loader" (path_str p) in
                 let class_body := [NamedExpr "__class__" load1; NamedExpr cd (EDict [] [])] ++ b' ++ [Name cd] in
                 let! decorated :=
